@@ -61,6 +61,9 @@ type jobctlWorld struct {
 	userEdited     bool
 	foreign        map[string]bool
 	indexHashes    []string
+	decidedAtSync  string // non-empty: the strategy was already decided by what the running sync can see
+	failBias       bool   // kubelet terminations are mostly failures (retry-focused histories)
+	forceKind      *int   // scenarios: the next kubelet termination is of this kind (0 = Succeeded, 2 = Failed)
 }
 
 func (w *jobctlWorld) now() int64 { return w.clk.Now().UnixNano() }
@@ -69,6 +72,7 @@ func (w *jobctlWorld) boot() {
 	w.ctx.Sim().Jobs().ResetHandlers()
 	w.ctx.Sim().Pods().ResetHandlers()
 	w.q = sim.NewDetQueue(w.clk)
+	w.q.Candidates = w.deadlines // every deferred re-sync of this controller targets one of these instants
 	jctx := jobcontroller.NewContextWithRecorder(w.ctx, &record.FakeRecorder{})
 	jctx.VerifSetQueue(w.q)
 	jobcontroller.NewInformerWorker(jctx)
@@ -270,8 +274,10 @@ func (w *jobctlWorld) work() {
 			inBatch = false
 			return pop()
 		}
+		w.decidedAtSync = w.oracleDecided()
 		podEv0 := len(w.api.Pending["pods"])
 		out := Guard(func() string { w.rc.VerifStep(context.Background()); return "" })
+		w.decidedAtSync = ""
 		w.api.SortDeleteRuns("pods", podEv0)
 		w.api.Fault = nil
 		res = "ok"
@@ -313,6 +319,152 @@ func (w *jobctlWorld) work() {
 		w.ttlDeleteAt = 0
 	}
 	w.monitorJobVersion()
+}
+
+// oracleDecided: is the completion strategy already decided by what the sync that is about to
+// run can see (the cached Job's task list, and for each listed task its Pod in the pod cache or,
+// for an unfinished one, on the server — the controller confirms absences with a live GET)?
+// Computed from pod phases by the property's own sentence (C08/C10), not by calling the code
+// under test.  Returns a description when decided, "" otherwise.
+func (w *jobctlWorld) oracleDecided() string {
+	cj := w.cachedJob
+	if cj == nil || cj.Spec.Template == nil || len(w.indexHashes) == 0 {
+		return ""
+	}
+	type acc struct{ succ, fail, alive int }
+	per := map[string]*acc{}
+	for _, h := range w.indexHashes {
+		per[h] = &acc{}
+	}
+	defHash, _ := parallel.HashIndex(parallel.GetDefaultIndex())
+	for _, r := range cj.Status.Tasks {
+		h := defHash
+		if r.ParallelIndex != nil {
+			h, _ = parallel.HashIndex(*r.ParallelIndex)
+		}
+		a := per[h]
+		if a == nil {
+			continue
+		}
+		var pod *corev1.Pod
+		if o, ok := w.ctx.Sim().Pods().CacheGet(&corev1.Pod{ObjectMeta: metav1.ObjectMeta{Namespace: "ns", Name: r.Name}}); ok {
+			pod = o.(*corev1.Pod)
+		} else if r.FinishTimestamp.IsZero() {
+			pod = w.apiPod(r.Name)
+		}
+		switch {
+		case pod != nil && pod.Status.Phase == corev1.PodSucceeded && !podOOM(pod):
+			a.succ++
+		case pod != nil && (pod.Status.Phase == corev1.PodFailed || pod.Status.Phase == corev1.PodSucceeded):
+			a.fail++
+		case pod != nil:
+			a.alive++
+		case !r.FinishTimestamp.IsZero() && r.Status.Result == execution.TaskSucceeded:
+			a.succ++
+		default: // recorded finished without success, or vanished
+			a.fail++
+		}
+	}
+	maxAttempts := int(cj.GetMaxAttempts())
+	allSucc, anySucc, allExh, anyExh := true, false, true, false
+	for _, a := range per {
+		exhausted := a.succ == 0 && a.alive == 0 && a.fail >= maxAttempts
+		allSucc = allSucc && a.succ > 0
+		anySucc = anySucc || a.succ > 0
+		allExh = allExh && exhausted
+		anyExh = anyExh || exhausted
+	}
+	any := cj.Spec.Template.Parallelism != nil && cj.Spec.Template.Parallelism.CompletionStrategy == execution.AnySuccessful
+	switch {
+	case any && anySucc:
+		return "AnySuccessful: an index has succeeded"
+	case any && allExh:
+		return "AnySuccessful: every index used all its attempts"
+	case !any && allSucc:
+		return "AllSuccessful: every index has succeeded"
+	case !any && anyExh:
+		return "AllSuccessful: an index used all its attempts without success"
+	}
+	return ""
+}
+
+func podOOM(p *corev1.Pod) bool {
+	for _, cs := range p.Status.ContainerStatuses {
+		if cs.State.Terminated != nil && cs.State.Terminated.Reason == "OOMKilled" {
+			return true
+		}
+	}
+	return false
+}
+
+// deadlines lists the instants (ns) at which the controller is supposed to act, from the
+// authoritative state: retry-delay expiry per finished task, pending timeout per pending pod,
+// the kill timestamp, force-delete expiry per deleting pod, TTL expiry of the finished Job.
+func (w *jobctlWorld) deadlines() []int64 {
+	j := w.apiJob()
+	if j == nil {
+		return nil
+	}
+	var ds []int64
+	delay := int64(j.GetRetryDelay())
+	for _, r := range j.Status.Tasks {
+		if !r.FinishTimestamp.IsZero() {
+			ds = append(ds, r.FinishTimestamp.UnixNano()+delay)
+		}
+	}
+	pend := int64(jobutil.GetPendingTimeout(j, w.cfg))
+	force := int64(jobutil.GetForceDeleteTimeout(w.cfg))
+	for _, p := range w.ownedPods() {
+		if podAlive(p) && pend > 0 {
+			ds = append(ds, p.CreationTimestamp.UnixNano()+pend)
+		}
+		if p.DeletionTimestamp != nil && force > 0 {
+			ds = append(ds, p.DeletionTimestamp.UnixNano()+force)
+		}
+		if !podAlive(p) {
+			for _, cs := range p.Status.ContainerStatuses {
+				if cs.State.Terminated != nil {
+					ds = append(ds, cs.State.Terminated.FinishedAt.UnixNano()+delay)
+				}
+			}
+		}
+	}
+	if j.Spec.KillTimestamp != nil {
+		ds = append(ds, j.Spec.KillTimestamp.UnixNano())
+	}
+	if cf := j.Status.Condition.Finished; cf != nil {
+		ds = append(ds, cf.FinishTimestamp.UnixNano()+int64(jobutil.GetTTLAfterFinished(j, w.cfg)))
+	}
+	return ds
+}
+
+// jumpToDeadline advances the clock to one second before, exactly at, or one second after one
+// of the pending deadlines (whichever lies in the future), so that syncs land on both sides of
+// every time comparison.
+func (w *jobctlWorld) jumpToDeadline() bool {
+	now := w.now()
+	var cand []int64
+	for _, d := range w.deadlines() {
+		for _, off := range []int64{-1e9, 0, 1e9} {
+			if t := d + off; t > now && t-now < 100000e9 {
+				cand = append(cand, t)
+			}
+		}
+	}
+	if len(cand) == 0 {
+		return false
+	}
+	sort.Slice(cand, func(a, b int) bool { return cand[a] < cand[b] })
+	// prefer the nearest deadlines: they are the ones other pending work interleaves with
+	k := w.rng.Intn(len(cand))
+	if w.rng.Intn(2) == 0 {
+		k = w.rng.Intn(1 + len(cand)/3)
+	}
+	d := cand[k] - now
+	w.clk.Step(time.Duration(d))
+	w.c.Emit(fmt.Sprintf("jc.adv %d", d), w.state())
+	w.c.Count("jc.jump-to-deadline")
+	return true
 }
 
 // checkEnvelope evaluates E-OrphanVisible for the sync that is about to run: when the cached
@@ -408,6 +560,9 @@ func (w *jobctlWorld) monitorCall(c sim.Call) {
 		}
 		if c.Result != "ok" {
 			return
+		}
+		if w.decidedAtSync != "" {
+			w.c.Violate("C08", "no-create-once-complete", "pod %s created although the Job was already complete for this sync (%s)", name, w.decidedAtSync)
 		}
 		// no create when stopped: judged on the Job version the sync read (informer lag is
 		// not a defect), everything else on the authoritative state
@@ -626,6 +781,13 @@ func (w *jobctlWorld) monitorJobVersion() {
 			w.c.Violate("C11", "timestamps-never-cleared", "finish timestamp of %s was cleared", name)
 		}
 	}
+	// C09: the admission error is reserved for a task name occupied by an object that does not
+	// belong to the Job; the Job's own (created-but-unrecorded) task must be adopted instead
+	if _, was := jobutil.GetAdmissionErrorMessage(p); !was {
+		if _, is := jobutil.GetAdmissionErrorMessage(j); is && len(w.foreign) == 0 {
+			w.c.Violate("C09", "own-task-not-refused", "Job marked with an admission error although no foreign object ever occupied one of its task names")
+		}
+	}
 	// C09: a task whose object still exists (and is not terminal) is never recorded lost/finished
 	{
 		for name, cr := range cur {
@@ -747,22 +909,35 @@ func jobctlCase(c *Ctx, rng *rand.Rand) {
 	w.jobKey, w.uid = "ns/job", "job-uid"
 	tmpl := &execution.JobTemplate{}
 	tmpl.TaskTemplate.Pod = &execution.PodTemplateSpec{Spec: corev1.PodSpec{Containers: []corev1.Container{{Name: "c", Image: "i"}}}}
+	// history shape: 0 = unbiased walk; 1 = retry-focused (several indexes, several attempts,
+	// positive retry delay, mostly failing pods, deadline jumps); 2 = lag-focused (single-event
+	// deliveries, restarts and faults between the steps of a task's life)
+	mode := []int{0, 0, 1, 1, 2}[rng.Intn(5)]
+	c.Count(fmt.Sprintf("jc.mode.%d", mode))
+	w.failBias = mode == 1
 	if rng.Intn(3) > 0 {
 		tmpl.MaxAttempts = i64p(int64(1 + rng.Intn(4)))
 	}
 	if rng.Intn(2) == 0 {
 		tmpl.RetryDelaySeconds = i64p([]int64{0, 1, 10, 60}[rng.Intn(4)])
 	}
+	if mode == 1 {
+		tmpl.MaxAttempts = i64p(int64(2 + rng.Intn(3)))
+		tmpl.RetryDelaySeconds = i64p([]int64{1, 10, 60}[rng.Intn(3)])
+	}
 	if rng.Intn(3) == 0 {
 		tmpl.TaskPendingTimeoutSeconds = i64p([]int64{0, 3, 20}[rng.Intn(3)])
 	}
 	tmpl.ForbidTaskForceDeletion = rng.Intn(5) == 0
 	strategy := "-"
-	if rng.Intn(2) == 0 {
+	if rng.Intn(2) == 0 || mode == 1 {
 		ps := &execution.ParallelismSpec{}
 		switch rng.Intn(3) {
 		case 0:
 			ps.WithCount = i64p(int64(1 + rng.Intn(4)))
+			if mode == 1 && *ps.WithCount < 2 {
+				ps.WithCount = i64p(2)
+			}
 		case 1:
 			ps.WithKeys = []string{"a", "b", "c"}[:1+rng.Intn(3)]
 		default:
@@ -783,7 +958,7 @@ func jobctlCase(c *Ctx, rng *rand.Rand) {
 	if hasFinalizer {
 		j.Finalizers = []string{executiongroup.DeleteDependentsFinalizer}
 	}
-	started := rng.Intn(10) > 0
+	started := rng.Intn(10) > 0 || mode == 1
 	if started {
 		j.Status.StartTime = ktime.Now()
 	}
@@ -814,15 +989,43 @@ func jobctlCase(c *Ctx, rng *rand.Rand) {
 	}
 	nsteps := 10 + rng.Intn(maxSteps)
 	creates0 := c.Stats["jc.pod-create-ok"]
-	lagMode := rng.Intn(3) == 0 // explicit single-event deliveries (cache lag) vs mostly flush
+	lagMode := rng.Intn(3) == 0 || mode == 2 // explicit single-event deliveries (cache lag) vs mostly flush
+	// lag-focused histories keep ONE resource's watch stream behind for long stretches (several
+	// syncs see the other resource advance while this one stands still)
+	laggy := ""
+	if mode == 2 {
+		laggy = []string{"pods", "pods", "jobs"}[rng.Intn(3)]
+		c.Count("jc.laggy." + laggy)
+	}
 	for step := 0; step < nsteps; step++ {
 		r := rng.Intn(100)
+		if laggy != "" && r >= 45 && r < 52 || laggy != "" && r >= 94 && rng.Intn(4) > 0 {
+			// instead of a full flush / settle: catch up only the resource that is not lagging
+			other := "jobs"
+			inf := w.ctx.Sim().Jobs()
+			if laggy == "jobs" {
+				other, inf = "pods", w.ctx.Sim().Pods()
+			}
+			for w.api.DeliverOne(other, inf) {
+				inf.Flush()
+				c.Emit("jc.deliver "+other, w.state())
+			}
+			continue
+		}
+		if jumpP := map[int]int{0: 5, 1: 14, 2: 5}[mode]; rng.Intn(100) < jumpP {
+			if w.jumpToDeadline() {
+				continue
+			}
+		}
 		switch {
 		case r < 30:
 			w.work()
 		case r < 45:
 			if lagMode {
 				res := []string{"jobs", "pods"}[rng.Intn(2)]
+				if laggy != "" && res == laggy && rng.Intn(5) > 0 {
+					res = map[string]string{"jobs": "pods", "pods": "jobs"}[laggy]
+				}
 				inf := w.ctx.Sim().Jobs()
 				if res == "pods" {
 					inf = w.ctx.Sim().Pods()
@@ -948,6 +1151,12 @@ func (w *jobctlWorld) kubelet(p *corev1.Pod, action int) {
 		act = "running"
 	case action <= 5 && podAlive(p):
 		kind := w.rng.Intn(5)
+		if w.failBias && kind < 2 && w.rng.Intn(3) > 0 {
+			kind = 2 + w.rng.Intn(3)
+		}
+		if w.forceKind != nil {
+			kind, w.forceKind = *w.forceKind, nil
+		}
 		w.api.Mutate("pods", key, func(o runtime.Object) {
 			pp := o.(*corev1.Pod)
 			started := now
